@@ -14,7 +14,8 @@ PATCH=$SRC/patch$K.diff
 [ -f $PATCH ] || { echo "$ID/$K: no patch"; exit 1; }
 if [ -f $SRC/demo$K.rs ]; then DEMO=$SRC/demo$K.rs; KIND=rs; elif [ -f $SRC/demo$K.diff ]; then DEMO=$SRC/demo$K.diff; KIND=diff; else echo "$ID/$K: no demo"; exit 1; fi
 put_demo() { if [ $KIND = rs ]; then cp $DEMO tests/demo_seed.rs; else git apply $DEMO || return 1; fi; }
-run_demo() { if [ $KIND = rs ]; then cargo test --offline --test demo_seed 2>&1 | grep -E "^test |test result|error(\[|:)"; else cargo test --offline --lib 2>&1 | grep -E "^test |test result|error(\[|:)"; fi; }
+RUNCMD=$(grep -m1 -E "^// RUN:" $DEMO 2>/dev/null | sed 's|^// RUN: *||')
+run_demo() { if [ $KIND = rs ]; then if [ -n "$RUNCMD" ]; then eval "$RUNCMD" 2>&1 | grep -E "^test |test result|error(\[|:)"; else cargo test --offline --test demo_seed 2>&1 | grep -E "^test |test result|error(\[|:)"; fi; else cargo test --offline --lib 2>&1 | grep -E "^test |test result|error(\[|:)" | grep -v "^error: test failed"; fi; }
 # 1. demo on the unchanged tree
 put_demo || { echo "$ID/$K: demo does not apply"; exit 1; }
 D0=$(run_demo)
